@@ -267,10 +267,35 @@ func c14Loop(tp *Tape, env *Env) (*Plan, *Violation) {
 		l, _ := genMarkupLine(tp, fmt.Sprintf("P%d", i), tp.Chance(20, "fillermayfail"))
 		sb.WriteString(l + " {$n}\n")
 	}
+	var dyn []string
+	if tp.Chance(50, "dynline") {
+		// one statement whose text is an inline expression only: plain the first time it is shown, then markup,
+		// a speaker prefix, plain again ... - what it parses to is a function of the substituted line alone
+		pool := []string{"plain words", "[b]x[/b] y", "Zed: hi there", "[wave a=1]w[/wave] t", "é [em]日本[/em]", "again plain", "[a/] z", "Mae: [b]q[/b]", "[nomarkup][x][/nomarkup]", "x [b]unclosed"}
+		dyn = append(dyn, "", "plain start")
+		for r := 2; r <= rounds; r++ {
+			dyn = append(dyn, pool[tp.Int(0, len(pool)-1, "dynvalue")])
+		}
+		// inserted before the fillers: <<set $m = V[$n]>> as an if chain, shown after them
+		var chain strings.Builder
+		for r := 1; r <= rounds; r++ {
+			kw := "elseif"
+			if r == 1 {
+				kw = "if"
+			}
+			fmt.Fprintf(&chain, "<<%s $n == %d>>\n    <<set $m = \"%s\">>\n", kw, r, dyn[r])
+		}
+		chain.WriteString("<<endif>>\n")
+		sb.WriteString(chain.String() + "DYN {$m}\n")
+	}
 	fmt.Fprintf(&sb, "<<if $n < %d>>\n    <<jump Hub>>\n<<endif>>\n===\n", rounds)
-	w := World{Readers: []ReaderSpec{{Text: sb.String()}}, Host: HostSpec{Storer: "default", Seed: "s1"}}
-	plan := &Plan{Harness: 1, Property: "C14", World: w, Extra: map[string]any{"loop": true, "shared": ns, "filler": nf, "rounds": rounds, "loop_options": nopt}}
-	env.St.sample(map[string]any{"script": sb.String()})
+	text := sb.String()
+	if dyn != nil {
+		text = strings.Replace(text, "<<declare $n = 0>>\n", "<<declare $n = 0>>\n<<declare $m = \"\">>\n", 1)
+	}
+	w := World{Readers: []ReaderSpec{{Text: text}}, Host: HostSpec{Storer: "default", Seed: "s1"}}
+	plan := &Plan{Harness: 1, Property: "C14", World: w, Extra: map[string]any{"loop": true, "shared": ns, "filler": nf, "rounds": rounds, "loop_options": nopt, "dyn": dyn}}
+	env.St.sample(map[string]any{"script": text})
 	journal(plan)
 	return plan, c14LoopExec(plan, env.St)
 }
@@ -289,11 +314,43 @@ func c14LoopExec(plan *Plan, st *Stats) *Violation {
 	if nopt > 0 {
 		per++
 	}
+	dyn, _ := decodeExtra[[]string](plan, "dyn")
+	if len(dyn) > 0 {
+		per++
+	}
 	first := make([]string, ns+1)
 	attrs, distinctInputs := 0, 0
 	for step := 0; step < rounds*per; step++ {
 		r, el := h.NextEl(0)
 		idx, round := step%per, step/per
+		if len(dyn) > 0 && idx == per-1 {
+			// the dynamic line: exactly what a fresh parser makes of the substituted text
+			if round+1 >= len(dyn) {
+				return nil
+			}
+			line := "DYN " + dyn[round+1]
+			var fresh markup.LineParser
+			want := parseWith(&fresh, line)
+			got := parseCanon{Err: true}
+			switch r.Kind {
+			case rLine:
+				got = parseCanon{Text: el.Line.Text, Attrs: el.Line.Attributes}
+				attrs += len(el.Line.Attributes)
+			case rError:
+			default:
+				return nil
+			}
+			if want.Panic != "" {
+				return nil
+			}
+			if canonJSON(want) != canonJSON(got) {
+				return &Violation{Clause: "C14.runner-history", OpIndex: step, Expected: want, Observed: got, Note: fmt.Sprintf("the line %q shown in round %d (the statement's value was %q in the round before) differs from what a fresh parser makes of it", line, round, dyn[round])}
+			}
+			if round > 0 && st != nil && dyn[round+1] != dyn[round] {
+				st.probe("one_statement_shown_with_different_substituted_text")
+			}
+			continue
+		}
 		if nopt > 0 && idx == ns {
 			// the option group: every option's text and attributes, as in the first round
 			c := "error"
